@@ -568,6 +568,16 @@ func (w *messageWriter) endMessage(err error) error {
 // final argument indicates that this is the last frame in the message.
 func (w *messageWriter) flushFrame(final bool, extra []byte) error {
 	c := w.c
+	if !final {
+		// The Engine.IO WebTransport framing has no continuation frames: one
+		// message is one frame whose header carries the whole length, so keep
+		// buffering (in a larger buffer) until the final flush.
+		buf := make([]byte, 2*len(c.writeBuf)+len(extra))
+		copy(buf, c.writeBuf[:w.pos])
+		w.pos += copy(buf[w.pos:], extra)
+		c.writeBuf = buf
+		return nil
+	}
 	length := w.pos - maxFrameHeaderSize + len(extra)
 
 	b0 := (byte(w.frameType) - 1) << 7
